@@ -77,7 +77,7 @@ PushEnd == /\ eres # "" /\ todo = <<>> /\ eres' = "" /\ UNCHANGED <<sv, insH, in
 Tick == /\ eres = "" /\ UNCHANGED <<insH, insB, todo, eres>>
         /\ IF ptr = ltip THEN UNCHANGED vars ELSE Walk(ltip, FALSE, {"*"}, <<>>)
 ESubmit(t, r) == eres = "" /\ Submit(t, r) /\ UNCHANGED <<insH, insB, todo, eres>>
-EMine == eres = "" /\ Mine(GoodOrder(Packable)) /\ UNCHANGED <<insH, insB, todo, eres>>
+EMine == eres = "" /\ Mine(PrefixFits(GoodOrder(Packable))) /\ UNCHANGED <<insH, insB, todo, eres>>
 ERestart == eres = "" /\ Restart /\ insH' = 0 /\ insB' = 0 /\ UNCHANGED <<todo, eres>>
 
 PushSeqs == UNION {[1..k -> {s \in TxSeqs : Len(s) <= 1}] : k \in 1..2}
